@@ -85,7 +85,8 @@ URL_IN_TEXT_RE = re.compile(
 
 # NOTE: we allow the a tag not to be closed because some browsers do and
 # also for performance reasons.
-URL_IN_HTML = r"""<a[^>]*\shref=(?:"([^"]*)"|'([^']*)'|([^\s>]*))[^>]*>"""
+# NOTE: "<a" must be the whole tag name ("<area href=...>" is not an anchor)
+URL_IN_HTML = r"""<a(?=\s)[^>]*\shref=(?:"([^"]*)"|'([^']*)'|([^\s>]*))[^>]*>"""
 URL_IN_HTML_BINARY = URL_IN_HTML.encode()
 
 # NOTE: re.A so that \s means the same as in the binary pattern (html whitespace
